@@ -58,6 +58,41 @@ def _d(v):
     return v.get('detail') or {}
 
 
+def reassign_pinned_model(best, scores):
+    """Executable model of the *known-defective* greedy algorithm of
+    plinio.methods.mps.utils._reassign_precisions as found on the pinned tree (NOT a reference of
+    correct behaviour).  It is used only to identify the known mechanisms in a witness: a
+    violation of the reassignment step is a known finding only if the real function returned
+    exactly what this algorithm returns; any other wrong result is a different defect."""
+    import torch
+    num_precisions, num_channels = scores.size()
+    current = torch.argmax(scores, dim=0)
+    order = torch.argsort(scores, dim=1, descending=True)
+    new = current.clone()
+    for prec in range(num_precisions):
+        target = int(best[prec].item())
+        idx = (current == prec).nonzero(as_tuple=True)[0]
+        if target == 0:
+            new[idx] = -1
+            continue
+        new[order[prec][:target]] = prec
+        excess = idx[target:]
+        if len(excess) > 0:
+            new[excess] = -1
+    for prec in range(num_precisions):
+        target = int(best[prec].item())
+        cur = (new == prec).sum().item()
+        if cur < target:
+            un = (new == -1).nonzero(as_tuple=True)[0]
+            top = order[prec][torch.isin(order[prec], un)][:target - cur]
+            new[top] = prec
+    out = torch.zeros_like(scores)
+    for ch in range(num_channels):
+        if new[ch] != -1:
+            out[new[ch], ch] = 1
+    return out
+
+
 @predicate('reassign-steal-count')
 def _reassign_steal(v):
     """_reassign_precisions given valid targets: a precision's top-`target` scoring channels
@@ -65,13 +100,16 @@ def _reassign_steal(v):
     precision), so some count is not met / a channel is left unassigned."""
     d = _d(v)
     if v['monitor'] == 'reassign-counts':
-        return bool(d.get('targets_valid')) and bool(d.get('topk_steals'))
+        return bool(d.get('targets_valid')) and bool(d.get('topk_steals')) and \
+            d.get('matches_pinned_algorithm') is True
     if v['monitor'] == 'layer-counts':
-        return bool(d.get('targets_valid')) and bool(d.get('reassign_count_mismatch'))
+        return bool(d.get('targets_valid')) and bool(d.get('reassign_count_mismatch')) and \
+            d.get('reassign_matches_pinned_algorithm') is True
     if v['monitor'] == 'cost-increase':
         return d.get('reassign_count_mismatch_layers', 0) > 0 and \
             d.get('layers_with_invalid_targets', 0) == 0 and \
-            d.get('layers_with_permuted_counts', 0) == 0
+            d.get('layers_with_permuted_counts', 0) == 0 and \
+            d.get('all_reassign_calls_match_pinned_algorithm') is True
     return False
 
 
@@ -81,12 +119,16 @@ def _float_drift(v):
     leaves a tiny positive remainder, one more step is taken and the chosen counts contain a
     negative entry / do not sum to the number of channels."""
     d = _d(v)
+    # signature of one float step too many: the counts still sum to the number of channels and the
+    # only defect is one entry at -1 (compensated by +1 elsewhere)
     if v['monitor'] == 'reassign-counts':
-        return d.get('targets_valid') is False
+        return d.get('targets_valid') is False and d.get('targets_off_by_one_step') is True and \
+            d.get('matches_pinned_algorithm') is True
     if v['monitor'] in ('layer-counts', 'chosen-counts-not-promotion', 'channel-demotion'):
-        return d.get('targets_valid') is False
+        return d.get('targets_valid') is False and d.get('targets_off_by_one_step') is True
     if v['monitor'] == 'cost-increase':
-        return d.get('layers_with_invalid_targets', 0) > 0
+        return d.get('layers_with_invalid_targets', 0) > 0 and \
+            d.get('layers_with_invalid_targets', 0) == d.get('layers_with_off_by_one_step_targets', -1)
     return False
 
 
@@ -112,7 +154,8 @@ def _topk_demotion(v):
     bit-width than before."""
     d = _d(v)
     return v['monitor'] == 'channel-demotion' and d.get('by_reassignment_step') is True and \
-        d.get('targets_valid') is True and d.get('chosen_is_promotion') is True
+        d.get('targets_valid') is True and d.get('chosen_is_promotion') is True and \
+        d.get('reassign_matches_pinned_algorithm') is True
 
 
 @predicate('supernet-block-twice-different-resolution')
